@@ -12,7 +12,7 @@
     on the bit patterns, so that the kernel can evaluate the extracted program. `SubSign ops` is the one fact about the
     arithmetic the Float theorems use; it is proved for `sfOps` and tested for the machine's doubles by the driver.
   * look-ups: `tableGet` (the probe loop of `Table_Get` / `Table_Mem`), `shGet` (the descent of `Tree_Get` / `Tree_Mem`).
-  * `assignSelfVal`: `assign(x, x)` (the early return of Array/List/Table/Tree_Assign, as extracted).
+  * `assignSelfVal`: `assign(x, x)` (the early return of Array/List/Table/Tree_Assign and of String_Assign, as extracted).
   * containers    : `seqHash`/`mapHash` (the folds of Array/List/Tuple_Hash and Table/Tree_Hash), `seqCmp`/`mapCmp` (parallel
                     iteration of X_Cmp), the Table's robin-hood slot array (because `Table_Cmp` iterates in slot order), the Tree as
                     its iteration sequence.
@@ -890,9 +890,14 @@ inductive Val where
   | tree (kt vt : Ty) (t : Sh)
 deriving Repr
 
+/-- an object: the allocation class of its header, its value, and — for a String / Tuple, whose struct holds a pointer to a
+    separately allocated buffer (`val` / `items`) — the class of the memory that buffer lies in (`heap`: got from `malloc` /
+    `realloc`; `stack`: a literal, an array in a frame, static storage — what `$S("…")` and `tuple(…)` build). For every other value
+    `buf` is not looked at. -/
 structure Obj where
   cls : Cls
   val : Val
+  buf : Cls := .heap
 deriving Repr
 
 abbrev Store := Array (Option Obj)
@@ -902,7 +907,7 @@ def Store.get (st : Store) (id : Nat) : Option Obj := st.getD id none
 /-- the scalar held by object `id` (Tuple items are scalar objects in this engine) -/
 def Store.scalar (st : Store) (id : Nat) : Option Scalar :=
   match st.get id with
-  | some ⟨_, .sc s⟩ => some s
+  | some ⟨_, .sc s, _⟩ => some s
   | _ => none
 
 /-- element sequence of a sequence-like value, Tuple items resolved through the store -/
@@ -925,25 +930,35 @@ def valHash (addr : Nat → Bytes) (st : Store) : Val → UInt64
   | .table _ _ t => mapHash CelloGen.Hash.tableComb (scalarHash addr) (scalarHash addr) t.entries
   | .tree _ _ t => mapHash CelloGen.Hash.treeComb (scalarHash addr) (scalarHash addr) t.toList
 
-/-- `cmp(a, b)` (sign); `none` = TypeError / not exercised -/
+/-- `cmp(a, b)` (sign); `none` = TypeError / not exercised.
+    A sequence on the left (`Array_Cmp` / `List_Cmp` / `Tuple_Cmp`) walks the right operand with `iter_init` / `iter_next`: a Table
+    or a Tree then presents its KEYS, in its iteration order, and the values are never looked at (KF-C10-seq-map-eq).
+    A Table / Tree on the left against a sequence (`Table_Cmp` / `Tree_Cmp`) calls `get(obj, item)` with the sequence's element as
+    the index — IndexOutOfBoundsError / TypeError for most operands, an unrelated element for the rest: `none`, not exercised. -/
 def valCmp (addr : Nat → Bytes) (st : Store) (a b : Val) : Option Int :=
   match a, b with
   | .sc x, .sc y => scalarCmp addr x y
   | _, _ =>
     match seqItems st a, seqItems st b with
     | some xs, some ys => seqCmp (scalarCmp addr) xs ys
+    | some xs, none =>
+      match mapEntries b with
+      | some es => seqCmp (scalarCmp addr) xs (es.map Prod.fst)
+      | none => none
     | _, _ =>
       match mapEntries a, mapEntries b with
       | some xs, some ys => mapCmp (scalarCmp addr) (scalarCmp addr) xs ys
       | _, _ => none
 
+/-- how a call ends other than by returning: the Cello exceptions, and `undefined` — no exception at all: the call leaves the
+    defined behaviour (reads a freed block, hands `realloc` / `free` a pointer that did not come from `malloc`) -/
 inductive Exc where
-  | valueError | typeError | keyError | indexError | formatError
+  | valueError | typeError | keyError | indexError | formatError | undefined
 deriving DecidableEq, Repr
 
 def Exc.name : Exc → String
   | .valueError => "ValueError" | .typeError => "TypeError" | .keyError => "KeyError"
-  | .indexError => "IndexOutOfBoundsError" | .formatError => "FormatError"
+  | .indexError => "IndexOutOfBoundsError" | .formatError => "FormatError" | .undefined => "undefined"
 
 /-- `assign(self, obj)` for the pairs this engine exercises; `self` has allocation class `cls`.
     Scalars: Int/Float copy the number, String reallocates (refused for a stack/static String), plain structs `memcpy`,
@@ -960,6 +975,9 @@ def assignVal (addr : Nat → Bytes) (st : Store) (cls : Cls) (self src : Val) :
   | .sc (.ptr b _), .sc (.ptr _ t) => .ok (.sc (.ptr b t))
   | .sc (.raw k _), .sc (.raw k' v) => if k = k' then .ok (.sc (.raw k v)) else .error .typeError
   | .seq kind _ _, .seq _ ety items => .ok (.seq kind ety items)
+  -- Array_Assign / List_Assign from a Tuple: a Tuple has no `iter_type`, the element type becomes Ref, and each slot is assigned
+  -- the item: a reference to it (KF-C10-assign-from-tuple: the result is not eq to the Tuple)
+  | .seq kind _ _, .tuple ids => .ok (.seq kind .ref (ids.map fun i => .ptr false i))
   | .tuple _, .tuple ids => if cls = .stack then .error .valueError else .ok (.tuple ids)
   | .table _ _ _, .table kt vt t => .ok (.table kt vt (tableOfEntriesW addr (layoutOf kt vt) t.entries))
   | .table _ _ _, .tree kt vt s => .ok (.table kt vt (tableOfEntriesW addr (layoutOf kt vt) s.toList))
@@ -973,20 +991,33 @@ structure SelfGuards where
   list : Bool
   table : Bool
   tree : Bool
+  /-- `String_Assign`: `if (val is s->val) { return; }` between `char* val = c_str(obj);` and the `realloc` (fix 744a45f) -/
+  string : Bool := true
+  /-- … and before the allocation-class test -/
+  stringFirst : Bool := true
 deriving DecidableEq, Repr
 
-/-- the guards of the source as it is now (fix a3140e4: all four) -/
+/-- the guards of the source as it is now (fix a3140e4: the four containers; fix 744a45f: String) -/
 def srcSelfGuards : SelfGuards :=
   ⟨CelloGen.Hash.arrayAssignSelfGuard, CelloGen.Hash.listAssignSelfGuard, CelloGen.Hash.tableAssignSelfGuard,
-   CelloGen.Hash.treeAssignSelfGuard⟩
+   CelloGen.Hash.treeAssignSelfGuard, CelloGen.Hash.stringAssignSelfGuard, CelloGen.Hash.stringAssignSelfGuardFirst⟩
+
+/-- the code before fix 744a45f: the four container guards, none in `String_Assign` -/
+def oldStringSelfGuards : SelfGuards := ⟨true, true, true, true, false, false⟩
 
 /-- `assign(x, x)`: a guarded container returns at once; an unguarded one (the code before a3140e4) clears itself and then
     iterates over the — now empty — source. Int / Float / plain struct / Ref / Box / Type behave as for any source. A heap Tuple
-    reallocates its pointer array to the same length and copies the pointers over themselves; a stack Tuple refuses. A String
-    reallocates its buffer and then `strcpy`s from the old pointer (defined only when the block does not move): not exercised,
-    and outside the statement (`SelfAssignCovered`). -/
+    reallocates its pointer array to the same length and copies the pointers over themselves; a stack Tuple refuses. A String:
+    `char* val = c_str(obj);` is the String's own buffer; with the guard `if (val is s->val) { return; }` (fix 744a45f) nothing
+    happens, whatever the allocation class (the guard stands before the class test); without it a stack String refuses and a
+    heap String reallocates its buffer and then `strcpy`s from the old pointer — the freed block: `undefined`. -/
 def assignSelfValWith (g : SelfGuards) (addr : Nat → Bytes) (st : Store) (cls : Cls) (v : Val) : Except Exc Val :=
   match v with
+  | .sc (.str b) =>
+    if g.string && g.stringFirst then .ok (.sc (.str b))
+    else if cls = .stack then .error .valueError
+    else if g.string then .ok (.sc (.str b))
+    else .error .undefined
   | .seq .array ety items => .ok (if g.array then .seq .array ety items else .seq .array ety [])
   | .seq .list ety items => .ok (if g.list then .seq .list ety items else .seq .list ety [])
   | .table kt vt t => .ok (if g.table then .table kt vt t else .table kt vt (tableOfEntriesW addr (layoutOf kt vt) []))
@@ -1224,15 +1255,42 @@ def swapVals (x y : Val) : Option (Val × Val) :=
     | some r => if r.1 = tagBytes true n ∧ r.2 = tagBytes false n then some (y, x) else none
     | none => none
 
-/-- `swap(a, b)` = `memswap` of the two structs: the objects keep their place (and allocation class), the values change
-    sides; `swap(a, a)` returns at once (the guard `p0 == p1`); `none` = the outcome of `memswap` is no value of the model -/
-def swapObjs (st : Store) (a b : Nat) : Option Store :=
-  if a = b then some st else
+/-- `swap(self, obj)` on two values: `if (type_of(self) is type_of(obj) and n) { memswap(self, obj, n); return; }`, TypeError
+    otherwise; `undefined` = the outcome of `memswap` is no value of the model -/
+def swapChecked (x y : Val) : Except Exc (Val × Val) :=
+  if sameStruct x y then
+    match swapVals x y with
+    | some r => .ok r
+    | none => .error .undefined
+  else .error .typeError
+
+/-- `swap(a, b)` = `memswap` of the two structs: the objects keep their place and their header (allocation class), the structs'
+    contents change sides — the value and, for a String / Tuple, the buffer pointer with it (`buf`: the memory the buffer lies
+    in goes with the pointer, not with the header). `swap(a, a)` returns at once (the guard `p0 == p1`). -/
+def swapObjs (st : Store) (a b : Nat) : Except Exc Store :=
+  if a = b then .ok st else
   match st.get a, st.get b with
   | some oa, some ob =>
-    (swapVals oa.val ob.val).map fun r =>
-      (st.setIfInBounds a (some { oa with val := r.1 })).setIfInBounds b (some { ob with val := r.2 })
-  | _, _ => some st
+    (swapChecked oa.val ob.val).map fun r =>
+      (st.setIfInBounds a (some { oa with val := r.1, buf := ob.buf })).setIfInBounds b (some { ob with val := r.2, buf := oa.buf })
+  | _, _ => .ok st
+
+/-- does the struct of the value hold a pointer to a buffer that the type's methods `realloc` / `free`? (String: `val`, Tuple: `items`) -/
+def Val.hasBuffer : Val → Bool
+  | .sc (.str _) => true
+  | .tuple _ => true
+  | _ => false
+
+/-- the object may hand its buffer to `realloc` / `free`: its header refuses (stack / static object: ValueError before the
+    call), or the buffer did come from the allocator -/
+def Obj.ownsBuffer (o : Obj) : Bool := !o.val.hasBuffer || o.cls == .stack || o.buf != .stack
+
+/-- `assign(o, src)` on an object: a String / Tuple whose header allows reallocation hands its buffer to `realloc` — a buffer
+    that is not the allocator's (it came in through `swap` from a stack / static object) is `undefined` (glibc: "realloc():
+    invalid pointer", abort); afterwards the buffer is the allocator's -/
+def assignObj (addr : Nat → Bytes) (st : Store) (o : Obj) (src : Val) : Except Exc Obj :=
+  if !o.ownsBuffer then .error .undefined
+  else (assignVal addr st o.cls o.val src).map fun v => { o with val := v, buf := if o.val.hasBuffer then .heap else o.buf }
 
 def swapScalars (x y : Scalar) : Option (Scalar × Scalar) :=
   match swapVals (.sc x) (.sc y) with
